@@ -264,26 +264,22 @@ def r7_consuming_modifiers(ctx) -> None:
     r, prog = ctx.r, ctx.prog
     r.rule("C17.R7", "modifiers that turn the characters of a value into other characters (base64, base64offset, wide, utf16be, utf16) refuse a value that still contains a placeholder: encoding the text %name% or passing the placeholder through unencoded consumes it without replacement or refusal")
     M = "sigma.modifiers"
-    for cn in ("SigmaBase64Modifier", "SigmaBase64OffsetModifier"):
-        f = prog.func(f"{M}.{cn}.modify")
-        enc = [c for c in walk_no_nested(f.node) if isinstance(c, ast.Call) and call_name(c) == "bytes"]
-        ok_ = bool(enc) and all(("val.contains_placeholder()", False) in atomic_guards(guards_at(prog, f, c)) for c in enc) \
-            and any(isinstance(n, ast.If) and "val.contains_placeholder()" in unparse(n.test) and isinstance(n.body[0], ast.Raise) and "Sigma" in unparse(n.body[0]) for n in walk_no_nested(f.node))
-        if ok_:
-            r.ok("C17.R7", f.qual, "bytes(val) only for values without placeholders (SigmaValueError otherwise)", f.loc)
+    from .c04 import modifier_outcome, PlaceholderPart
+    for cn in ("SigmaBase64Modifier", "SigmaBase64OffsetModifier", "SigmaWideModifier", "SigmaUTF16BEModifier", "SigmaUTF16Modifier"):
+        f = prog.lookup_method(f"{M}.{cn}", "modify")
+        if f is None:
+            raise AnalysisError(f"anchor vanished: {M}.{cn}.modify")
+        bad = []
+        for parts in (["p=", PlaceholderPart("a")], [PlaceholderPart("a")], ["x", PlaceholderPart("a"), "y"]):
+            kind, got = modifier_outcome(ctx, cn, parts)
+            if kind != "refused":
+                bad.append(f"modify({parts!r}) → {kind} {got!r}")
+        if not bad:
+            r.ok("C17.R7", f.qual, "interpreted: a value with a placeholder part is refused with a Sigma error", f.loc)
+        elif "Base64" in cn:
+            r.violation("C17.R7", f.qual, f"bytes(val) without a placeholder check: {bad[0]}", "f|expand|base64: 'p=%a%' converts to the Base64 of the literal text p=%a%: the placeholder is destroyed when the rule is loaded, neither replaced nor refused", f.loc)
         else:
-            r.violation("C17.R7", f.qual, "bytes(val) without a placeholder check", "f|expand|base64: 'p=%a%' converts to the Base64 of the literal text p=%a%: the placeholder is destroyed when the rule is loaded, neither replaced nor refused", f.loc)
-    for cn in ("SigmaWideModifier", "SigmaUTF16BEModifier", "SigmaUTF16Modifier"):
-        f = prog.func(f"{M}.{cn}.modify")
-        rej = [n for n in walk_no_nested(f.node) if isinstance(n, ast.If)]
-        found = False
-        for n in walk_no_nested(f.node):
-            if isinstance(n, ast.Raise) and "Sigma" in unparse(n) and ("isinstance(item, Placeholder)", True) in atomic_guards(guards_at(prog, f, n)):
-                found = True
-        if found or any("contains_placeholder()" in unparse(n.test) and isinstance(n.body[0], ast.Raise) for n in rej):
-            r.ok("C17.R7", f.qual, "placeholder parts are refused with a Sigma error", f.loc)
-        else:
-            r.violation("C17.R7", f.qual, "else: r.append(item)  # placeholders pass through", "f|expand|wide: 'user=%user%' yields UTF-16 text around a placeholder that is later replaced by single-byte text: a mixture that matches nothing, without any error", f.loc)
+            r.violation("C17.R7", f.qual, f"placeholders pass through: {bad[0]}", "f|expand|wide: 'user=%user%' yields UTF-16 text around a placeholder that is later replaced by single-byte text: a mixture that matches nothing, without any error", f.loc)
     r.floor("C17.R7", 5)
 
 
@@ -308,53 +304,7 @@ def r8_filters_honoured(ctx) -> None:
     r.floor("C17.R8", 2)
 
 
-def _string_standin(ctx):
-    """A SigmaString stand-in for interpreting its methods (sa.tabulate): parts list `s`, concatenation, placeholder test;
-    every other method (helpers a refactoring introduces, the recursion) resolves from the source of sigma.types.SigmaString."""
-    import re as _re
-    from ..tabulate import _class_attr
-    prog = ctx.prog
-
-    class Placeholder:
-        def __init__(self, name): self.name = name
-        def __repr__(self): return f"%{self.name}%"
-
-    class _SC:
-        def __init__(self, n): self.n = n
-        def __repr__(self): return f"<{self.n}>"
-
-    sc = type("SpecialChars", (), {"WILDCARD_MULTI": _SC("*"), "WILDCARD_SINGLE": _SC("?")})
-    env = {"re": _re, "Placeholder": Placeholder, "SpecialChars": sc, "cast": lambda t, v: v}
-    kw = {"max_steps": 20000}
-
-    class Str:
-        def __init__(self, parts=()):
-            self.s = list(parts)
-            self.original = "stale%zzz%"
-
-        def contains_placeholder(self, *a, **k):
-            return any(isinstance(x, Placeholder) for x in self.s)
-
-        def __add__(self, o):
-            n = type(self)()
-            n.s = self.s + (list(o.s) if isinstance(o, Str) else [o])
-            return n
-
-        def __radd__(self, o):
-            n = type(self)()
-            n.s = [o] + self.s
-            return n
-
-        def __getattr__(self, name):
-            if name.startswith("__"):
-                raise AttributeError(name)
-            return _class_attr(prog, T + ".SigmaString", env, kw, name, type(self), self)
-
-    class CasedStr(Str):
-        pass
-
-    env["SigmaString"] = Str
-    return Str, CasedStr, Placeholder, sc, env
+from .standins import string_standin as _string_standin  # noqa: E402
 
 
 def _r3_string_expansion(ctx, rp: FuncInfo) -> None:
